@@ -137,77 +137,6 @@ func run(c *core.Ctx) {
 		}
 		return ext
 	}
-	// (e) neighbourhoods of long sentences: every single token edit everywhere, every pair
-	// of edits within a window
-	if !c.Expired() {
-		window := c.Pick(1, 3)
-		alpha2 := langx.ReducedEditAlphabet
-		if !c.Quick() {
-			alpha2 = langx.EditAlphabet
-		}
-		c.R.Bounds["corpus_sentences"] = len(langx.Corpus)
-		c.R.Bounds["corpus_edit_distance"] = 2
-		c.R.Bounds["corpus_second_edit_window"] = window
-		seedOK := map[int]bool{}
-		langx.Neighbourhood(window, c.Shard, c.NShards, alpha2, func(seed int, toks []string, text []byte) {
-			visitText("corpus-edits", toks, text)
-		})
-		for si, s := range langx.Corpus {
-			if _, mv, _ := langx.Model([]byte(s)); mv.OK {
-				seedOK[si] = true
-			}
-		}
-		if len(seedOK) != len(langx.Corpus) {
-			panic(fmt.Sprintf("corpus: only %d of %d seed sentences are derivable from the model grammar", len(seedOK), len(langx.Corpus)))
-		}
-	}
-	// (a') unpruned, short
-	unpruned := c.Pick(3, 4)
-	c.R.Bounds["unpruned_tokens_full_alphabet"] = unpruned
-	langx.TokenDFS(langx.Alphabets[0], unpruned, c.Shard, c.NShards, func(toks []string, text []byte) bool {
-		visitText("full-unpruned", toks, text)
-		return true
-	})
-	// (a) viable-prefix DFS
-	for _, a := range langx.Alphabets {
-		if c.Expired() {
-			return
-		}
-		a := a
-		c.R.Bounds["viable_prefix_tokens_"+a.Name] = a.MaxLen[qi]
-		langx.TokenDFS(a, a.MaxLen[qi], c.Shard, c.NShards, func(toks []string, text []byte) bool {
-			if len(toks)%4 == 0 && c.Expired() {
-				return false
-			}
-			return visitText(a.Name, toks, text)
-		})
-	}
-	// (b) bytes: token streams of lexer and model, then the parser on `{ bytes }`
-	maxBytes := c.Pick(5, 6)
-	c.R.Bounds["bytes"] = maxBytes
-	langx.Bytes(maxBytes, c.Shard, c.NShards, func(text []byte) {
-		if bad, fid := JudgeLex(text); bad != "" {
-			c.Mismatch(fid, "lex "+sigOf(bad, ""), fmt.Sprintf("lexing %q: %s", text, bad), map[string]interface{}{"text": string(text), "lex": true})
-		}
-		c.R.Evaluations++
-		c.R.States++
-		c.R.Transitions += uint64(len(text))
-		wrapped := append(append([]byte("{ "), text...), " }"...)
-		visitText("bytes-in-braces", nil, wrapped)
-		// also as the content of a string argument and after a field
-		if len(text) < maxBytes || !c.Quick() {
-			visitText("bytes-after-field", nil, append(append([]byte("{ a "), text...), " b }"...))
-		}
-	})
-	// (b') character units: multi-byte characters as single units (valid UTF-8 only)
-	maxUnits := c.Pick(5, 6)
-	c.R.Bounds["character_units"] = maxUnits
-	langx.Units(maxUnits, c.Shard, c.NShards, func(text []byte) {
-		if bad, fid := JudgeLex(text); bad != "" {
-			c.Mismatch(fid, "lex "+sigOf(bad, ""), fmt.Sprintf("lexing %q: %s", text, bad), map[string]interface{}{"text": string(text), "lex": true})
-		}
-		visitText("units-in-braces", nil, append(append([]byte("{ a "), text...), " b }"...))
-	})
 	// (c) literal payloads: every short content of a block string and of a string
 	expired := false
 	payload := func(kind string, alphabet []string, maxLen int, open, close string) {
@@ -272,6 +201,88 @@ func run(c *core.Ctx) {
 		}
 	}
 	payload("string-payload", []string{"a", `\`, `"`, "u", "0", "F", "n", "\u00e9", "/", "\t", "d", "8"}, c.Pick(5, 6), `"`, `"`)
+	// (b) bytes: token streams of lexer and model, then the parser on `{ bytes }`
+	maxBytes := c.Pick(5, 6)
+	c.R.Bounds["bytes"] = maxBytes
+	bytesUpTo := func(minLen, maxLen int) {
+		langx.Bytes(maxLen, c.Shard, c.NShards, func(text []byte) {
+			if len(text) < minLen {
+				return
+			}
+			if bad, fid := JudgeLex(text); bad != "" {
+				c.Mismatch(fid, "lex "+sigOf(bad, ""), fmt.Sprintf("lexing %q: %s", text, bad), map[string]interface{}{"text": string(text), "lex": true})
+			}
+			c.R.Evaluations++
+			c.R.States++
+			c.R.Transitions += uint64(len(text))
+			wrapped := append(append([]byte("{ "), text...), " }"...)
+			visitText("bytes-in-braces", nil, wrapped)
+			// also as the content of a string argument and after a field
+			if len(text) < maxBytes || !c.Quick() {
+				visitText("bytes-after-field", nil, append(append([]byte("{ a "), text...), " b }"...))
+			}
+		})
+	}
+	// all strings one byte shorter than the bound first; the longest ones at the very end
+	bytesUpTo(0, maxBytes-1)
+	// (b') character units: multi-byte characters as single units (valid UTF-8 only)
+	maxUnits := c.Pick(5, 6)
+	c.R.Bounds["character_units"] = maxUnits
+	langx.Units(maxUnits, c.Shard, c.NShards, func(text []byte) {
+		if bad, fid := JudgeLex(text); bad != "" {
+			c.Mismatch(fid, "lex "+sigOf(bad, ""), fmt.Sprintf("lexing %q: %s", text, bad), map[string]interface{}{"text": string(text), "lex": true})
+		}
+		visitText("units-in-braces", nil, append(append([]byte("{ a "), text...), " b }"...))
+	})
+	// (e) neighbourhoods of long sentences: every single token edit everywhere, every pair
+	// of edits within a window
+	if !c.Expired() {
+		window := c.Pick(1, 3)
+		alpha2 := langx.ReducedEditAlphabet
+		if !c.Quick() {
+			alpha2 = langx.EditAlphabet
+		}
+		c.R.Bounds["corpus_sentences"] = len(langx.Corpus)
+		c.R.Bounds["corpus_edit_distance"] = 2
+		c.R.Bounds["corpus_second_edit_window"] = window
+		seedOK := map[int]bool{}
+		langx.Neighbourhood(window, c.Shard, c.NShards, alpha2, func(seed int, toks []string, text []byte) {
+			visitText("corpus-edits", toks, text)
+		})
+		for si, s := range langx.Corpus {
+			if _, mv, _ := langx.Model([]byte(s)); mv.OK {
+				seedOK[si] = true
+			}
+		}
+		if len(seedOK) != len(langx.Corpus) {
+			panic(fmt.Sprintf("corpus: only %d of %d seed sentences are derivable from the model grammar", len(seedOK), len(langx.Corpus)))
+		}
+	}
+	// (a') unpruned, short
+	unpruned := c.Pick(3, 4)
+	c.R.Bounds["unpruned_tokens_full_alphabet"] = unpruned
+	langx.TokenDFS(langx.Alphabets[0], unpruned, c.Shard, c.NShards, func(toks []string, text []byte) bool {
+		visitText("full-unpruned", toks, text)
+		return true
+	})
+	// (a) viable-prefix DFS
+	for _, a := range langx.Alphabets {
+		if c.Expired() {
+			return
+		}
+		a := a
+		c.R.Bounds["viable_prefix_tokens_"+a.Name] = a.MaxLen[qi]
+		langx.TokenDFS(a, a.MaxLen[qi], c.Shard, c.NShards, func(toks []string, text []byte) bool {
+			if len(toks)%4 == 0 && c.Expired() {
+				return false
+			}
+			return visitText(a.Name, toks, text)
+		})
+	}
+	// (b, continued) the byte strings of maximal length
+	if !c.Expired() {
+		bytesUpTo(maxBytes, maxBytes)
+	}
 }
 
 // JudgeLex compares the library's token stream with the model's.
